@@ -316,7 +316,7 @@ def free_scripts(n, seed, quiesce):
         P, W, N = rng.choice(FREE_CFGS)
         out.append({"id": "free-%d" % i, "P": P, "W": W, "N": N, "mode": rng.choice(["waiter", "poller"]), "steps": [],
                     "free": True, "seed": rng.randrange(1 << 30), "quiesce": quiesce and i % 2 == 0, "block": i % 10 == 9,
-                    "werr": rng.choice([0, 0, 1, 2, 3]) if i % 10 != 9 else 0})
+                    "werr": rng.choice([0, 0, 1, 2, 3]) if i % 10 != 9 else 0, "again": i % 7 == 2 and i % 10 != 9})
     return out
 
 
@@ -387,8 +387,8 @@ def validate_impl(sc, recs):
     """Conformance of gate-step recordings to DiodeImpl, grouped by configuration. Never a verdict."""
     groups = {}
     for ri, (s, _, impl) in enumerate(recs):
-        if s.get("block"):
-            continue  # BlockWriter runs are a different constant; covered by the contract only
+        if s.get("block") or s.get("again"):
+            continue  # BlockWriter runs are a different constant, "again" runs go on after the model's last state; covered by the contract only
         groups.setdefault((s["P"], s["W"], s["N"], s["mode"] == "poller"), []).append(ri)
 
     items = []
@@ -457,6 +457,8 @@ def check(pid, tier, seed, replay=None):
             faulty = [dict(s, id=s["id"] + "-werr%d" % (1 + i % 3), werr=1 + i % 3) for i, s in enumerate(sims) if i % 4 == 0]
             # a writer created with a nil alerter (drops are silent by construction: no accounting, everything else must hold)
             faulty += [dict(s, id=s["id"] + "-noalert", noalert=True) for i, s in enumerate(sims) if i % 6 == 1]
+            # after Close returned: late Writes and a second Close (nothing may reach the wrapped writer any more)
+            faulty += [dict(s, id=s["id"] + "-again", again=True) for i, s in enumerate(sims) if i % 6 == 3]
             scripts = leads + directed + sims + blocked + free + covers + faulty
         log("%s: %d scripts (%d model leads)" % (pid, len(scripts), len(leads)))
         recs = play(player, sc, scripts, shards=min(NCPU, max(1, len(scripts) // 20)))
